@@ -78,7 +78,8 @@ def load_corpus(pid):
     if os.path.isdir(d):
         for f in sorted(os.listdir(d)):
             if f.endswith('.json'):
-                out.append(json.load(open(os.path.join(d, f))))
+                c = json.load(open(os.path.join(d, f)))
+                out.append(c['case'] if isinstance(c, dict) and 'case' in c and 'origin' in c else c)
     return out
 
 
